@@ -88,14 +88,6 @@ def report_level(items, nmax_lines=4, max_sell_days=2, quick=True):
     return out
 
 
-def fam_c01(tier, seed):
-    items = matching_family(tier, seed, events=("X", "U"))
-    sks = _number("m", items)
-    rep = report_level([it for it in items if it[1] == BASES[0]], 4 if tier == "quick" else 5, quick=tier == "quick")
-    sks += _number("r", rep, level="report")
-    return sks
-
-
 def interleaved_family(tier):
     """non-canonical line orders: a day's buys and sells of one security interleaved (so that the tool keeps several
     unmerged lots / sales for that day), optionally after an earlier buy and sale whose 30-day match reaches into that day.
@@ -111,16 +103,29 @@ def interleaved_family(tier):
                 lines = [list(x) for x in pre] + [[k, "A", d] for k in dk]
                 if len(lines) <= (6 if tier == "quick" else 7):
                     out.append((lines, BASES[0]))
-                    # same day lines separated by another security's line instead
-    for pre in ([["B", "A", 0], ["S", "A", 1]],):
-        for dk in ("BB", "BBB", "BSB"):
+                # followed by a repurchase within 30 days
+                if len(lines) <= (5 if tier == "quick" else 6):
+                    out.append((lines + [["B", "A", d + 30]], BASES[0]))
+    # same-day lines separated by another security's line instead
+    for pre in ([["B", "A", 0], ["S", "A", 1]], [["B", "A", 0], ["B", "B", 0]]):
+        for dk in ("BB", "BBB", "BSB", "SS", "SSB"):
             lines = [list(x) for x in pre]
             for i, k in enumerate(dk):
                 lines.append([k, "A", 30])
                 if i < len(dk) - 1:
                     lines.append(["B", "B", 30])
             out.append((lines, BASES[0]))
+            out.append((lines + [["B", "A", 31]], BASES[0]))
     return out
+
+
+def fam_c01(tier, seed):
+    items = matching_family(tier, seed, events=("X", "U"))
+    sks = _number("m", items)
+    sks += _number("i", interleaved_family(tier))
+    rep = report_level([it for it in items if it[1] == BASES[0]], 4 if tier == "quick" else 5, quick=tier == "quick")
+    sks += _number("r", rep, level="report")
+    return sks
 
 
 def fam_c02(tier, seed):
@@ -135,6 +140,7 @@ def fam_c02(tier, seed):
 def fam_c05(tier, seed):
     items = matching_family(tier, seed, events=("X", "U"))
     sks = _number("m", items)
+    sks += _number("i", interleaved_family(tier))
     rep = report_level([it for it in items if it[1] == BASES[0]], 3 if tier == "quick" else 4, quick=False)
     sks += _number("r", rep, level="report")
     return sks
@@ -434,3 +440,8 @@ SPECS.update({
                     "as quick with 9 shapes")),
                 assumptions=COMMON_ASSUME, outside=OUTSIDE + ["CLI --year argument parsing"]),
 })
+
+
+from . import c07extra  # noqa: E402
+
+SPECS["C07"]["extra_engines"] = [c07extra.kani_dates, c07extra.srcx_dates]
